@@ -187,3 +187,9 @@ def has_complete_group(paths):
         if c == n_children(par):
             return par
     return None
+
+
+def interleaved(paths):
+    """same cells, ordered so that consecutive cells have the same (segment slot, digits) on DIFFERENT faces: a cache keyed on
+    anything less than the full identity of a cell (e.g. one that forgets the face) is hit with the wrong owner"""
+    return sorted(paths, key=lambda p: (len(p), p[1:], p[:1]))
